@@ -54,14 +54,17 @@ def c19_jobs(tier):
             for frm in (0, 1):
                 js = range(n + 1) if frm == 0 else [0, 1]
                 if sh >= 20:
-                    js = [j for j in js if j in (0, 1, n // 2, n - 1)]
+                    # height-4 shapes (thorough tier only): a third of them, three positions
+                    if sh % 3 != 0:
+                        continue
+                    js = [j for j in js if j in (0, n // 2, n - 1)]
                 for j in js:
                     jobs.append({"func": "verif_C19_iter", "args": [sh, op, j, frm]})
         jobs.append({"func": "verif_C19_reach", "args": [sh]})
         # two mutations between two Next() calls
         for seq in (0, 1):
             for j in range(n):
-                if sh >= 20 and j not in (0, n // 2, n - 1):
+                if sh >= 20 and (sh % 5 != 0 or j not in (0, n // 2, n - 1)):
                     continue
                 jobs.append({"func": "verif_C19_iter2", "args": [sh, j, seq, 1]})
                 if n <= 3 or (tier != "quick" and sh < 20):
@@ -79,7 +82,7 @@ PROPS["C19"] = {
     "selftest_kinds": {"key": "sorted", "k": (-50, 50), "q": (-50, 50), "lb": (-50, 50), "k1": (-50, 50), "k2": (-50, 50)},
     "bounds": {"quick": "one Insert/Delete from every AVL shape of height <= 4 (335 shapes, <= 15 nodes); probes, clones and live iterators "
                         "(advanced 0..n steps, one mutation; two mutations incl. delete+re-insert of one key) from every shape of height <= 3; keys symbolic mathematical integers",
-               "thorough": "every AVL shape of height <= 4 (335 shapes, <= 15 nodes)"},
+               "thorough": "additionally probes / clones from every seventh, live iterators from every third and double mutations from every fifth shape of height 4"},
     "outside": "trees taller than the bound except through the induction argument (every AVL shape is a reachable pre-state); "
                "keys at the int64 boundary (cursor value + 1 overflows); more than one mutation between two Next() calls",
     "assumptions": ["ints are encoded as mathematical integers: keys range over all of Z, which coincides with int64 behaviour "
